@@ -2183,8 +2183,11 @@ namespace bloch::compiler {
                                              "' expected '" + typeLabel(expected) + "'");
                     }
                 } else if (expected.value != ValueType::Unknown &&
-                           actual.value != ValueType::Unknown &&
-                           !matchesPrimitive(expected.value, actual.value)) {
+                           (!actual.className.empty() ||
+                            (actual.value != ValueType::Unknown &&
+                             !matchesPrimitive(expected.value, actual.value)))) {
+                    // A class or array value (its primitive tag is Unknown) never fits a
+                    // primitive parameter; only a genuinely unknown type is let through.
                     throw BlochError(ErrorCategory::Semantic, arg->line, arg->column,
                                      "argument #" + std::to_string(i + 1) + " to '" + name +
                                          "' expected '" + typeToString(expected.value) + "'");
